@@ -44,6 +44,7 @@ type Engine struct {
 	timeoutS  int
 	requireAll bool
 	interior   *interiorInfo
+	constGlobals map[*ssa.Global]*ssa.Const
 }
 
 func identOf(dr *ssa.DebugRef) string {
@@ -94,6 +95,7 @@ func LoadEngine(patterns []string) (*Engine, error) {
 		sort.Slice(fs, func(i, j int) bool { return fs[i].String() < fs[j].String() })
 	}
 	eng.scanInterior()
+	eng.scanConstGlobals()
 	// contracts: externals first, then per-package files from /repo (mirror as fallback)
 	if err := eng.specs.LoadSpecFile("/verif/contracts/externals.vspec", ""); err != nil {
 		return nil, err
